@@ -117,14 +117,14 @@ def read_with_evo(fmt, text, variant, work, name):
     from evo.tools import file_interface as fi
     reader = {"tum": fi.read_tum_trajectory_file, "kitti": fi.read_kitti_poses_file,
               "euroc": fi.read_euroc_csv_trajectory}[fmt]
-    if variant in ("str", "Path", "bom"):
+    if variant in ("str", "Path", "bom", "bom+Path"):
         p = os.path.join(work, name)
         data = text.encode("utf-8")
-        if variant == "bom":
+        if variant.startswith("bom"):
             data = b"\xef\xbb\xbf" + data
         with open(p, "wb") as f:
             f.write(data)
-        return contracts.outcome_of(reader, Path(p) if variant == "Path" else p)
+        return contracts.outcome_of(reader, Path(p) if variant.endswith("Path") else p)
     if variant == "StringIO":
         return contracts.outcome_of(reader, io.StringIO(text))
     p = os.path.join(work, name)
@@ -141,7 +141,7 @@ def k_read(run, case, rng, work):
     eol = "\r\n" if rng.random() < .3 else "\n"
     delim = "," if fmt == "euroc" else " "
     text = render(rng, rows, delim, eol, comments=True, trailing_newline=bool(rng.random() < .8))
-    variant = ["str", "Path", "bom", "StringIO", "handle"][rng.integers(5)]
+    variant = ["str", "Path", "bom", "bom+Path", "StringIO", "handle"][rng.integers(6)]
     if fmt == "euroc" and variant in ("StringIO", "handle"):
         variant = "str"
     out = read_with_evo(fmt, text, variant, work, "in.txt")
